@@ -233,6 +233,22 @@ def eerrJ : EErr → Json
 def worldEJ (w : WorldE) : List (String × Json) :=
   [("world", worldJ w.core), ("ext", extJ w.st w.ext)]
 
+def parseFuncE (j : Json) : Except String FuncE := do
+  return ⟨← parseFId (j.getObjValD "id"), ← getStrs j "inputs", ← getStrs j "outputs",
+    ← (← getArr j "vinfo").mapM parseVInfoE, ← (← getArr j "nodes").mapM parseNodeE⟩
+
+def funcEJ (f : FuncE) : Json :=
+  obj [("id", fidJ f.id), ("inputs", strsJ f.inputs), ("outputs", strsJ f.outputs),
+    ("vinfo", Json.arr (f.vinfo.map vinfoEJ).toArray), ("nodes", Json.arr (f.nodes.map nodeEJ).toArray)]
+
+def parseModelE (j : Json) : Except String ModelE := do
+  return ⟨← parseGraphE (j.getObjValD "p"), ← (← getArr j "funcs").mapM parseFuncE⟩
+
+def modelEJ (m : ModelE) : Json := obj [("p", graphEJ m.graph), ("funcs", Json.arr (m.funcs.map funcEJ).toArray)]
+
+def mworldEJ (w : MWorldE) : List (String × Json) :=
+  [("world", mworldJ w.core), ("ext", extJ w.st w.ext)]
+
 /-- serialize `w`; when that succeeds also: reload, canonical form, second serialization -/
 def serReport (w : ModelDS) : List (String × Json) :=
   match serModelD w with
@@ -274,6 +290,43 @@ def handle : Handler := fun m j =>
               | .ok (_, q2) => [("ser_ok", toJson true), ("q", graphEJ q), ("deser2_ok", toJson true),
                   ("ser2_ok", toJson true), ("q2", graphEJ q2)]
         return obj ([("ok", toJson true)] ++ worldEJ w ++ extra)
+  | "scope.medeser" => some do
+      -- extended model with functions (IR version >= 10 format)
+      let p ← parseModelE j
+      let ver : Option Int := (j.getObjValAs? Int "ver").toOption
+      match deserializeME p with
+      | .error e => return obj [("ok", toJson false), ("err", errJ e)]
+      | .ok w =>
+        let extra : List (String × Json) :=
+          match serializeME ver w with
+          | .error e => [("ser_ok", toJson false), ("ser_err", eerrJ e)]
+          | .ok (_, q) =>
+            match deserializeME q with
+            | .error _ => [("ser_ok", toJson true), ("q", modelEJ q), ("deser2_ok", toJson false)]
+            | .ok w2 =>
+              match serializeME ver w2 with
+              | .error _ => [("ser_ok", toJson true), ("q", modelEJ q), ("deser2_ok", toJson true),
+                  ("ser2_ok", toJson false)]
+              | .ok (_, q2) => [("ser_ok", toJson true), ("q", modelEJ q), ("deser2_ok", toJson true),
+                  ("ser2_ok", toJson true), ("q2", modelEJ q2)]
+        return obj ([("ok", toJson true)] ++ mworldEJ w ++ extra)
+  | "scope.meser" => some do
+      let w0 ← parseMWorld (j.getObjValD "w")
+      let x ← parseExt (j.getObjValD "ext")
+      let ver : Option Int := (j.getObjValAs? Int "ver").toOption
+      let w : MWorldE := ⟨w0.st, x, w0.root, w0.funcs⟩
+      match serializeME ver w with
+      | .error e => return obj [("ser_ok", toJson false), ("ser_err", eerrJ e)]
+      | .ok (w1, p) =>
+        let twice : List (String × Json) :=
+          match serializeME ver w1 with
+          | .error _ => [("ser2_ok", toJson false)]
+          | .ok (_, p2) => [("ser2_ok", toJson true), ("p2", modelEJ p2)]
+        let rt : List (String × Json) :=
+          match deserializeME p with
+          | .error e => [("deser_ok", toJson false), ("err", errJ e)]
+          | .ok w2 => [("deser_ok", toJson true), ("world2", mworldJ w2.core), ("ext2", extJ w2.st w2.ext)]
+        return obj ([("ser_ok", toJson true), ("p", modelEJ p)] ++ twice ++ rt)
   | "scope.eser" => some do
       -- extended model, IR -> proto -> IR: serialize a world built from the real IR, serialize the world left
       -- by that again, deserialize the proto
